@@ -125,6 +125,10 @@ func c05Check(ctx *Ctx, res *CaseResult, dir string, p *c05Payload) map[string]s
 			return out
 		}
 		for i, ps := range p.Passes {
+			if OrphanMappings(cur) > 0 {
+				ctx.Count("passes.orphan_mapping_stop", 1)
+				break
+			}
 			if ps.Kind == "replace_reference" {
 				// the claim covers replace_reference towards an object that exists
 				// at this point of the history
@@ -271,6 +275,11 @@ func genNameChangingPasses(r *Rand, schemas ast.Schemas) []PassSpec {
 	view := ViewOf(schemas)
 	n := 1 + r.Intn(5)
 	var out []PassSpec
+	if r.Chance(1, 3) {
+		// set-up step (not a name-changing pass): gives unions of references the
+		// discriminator mapping the later renames have to keep in step
+		out = append(out, PassSpec{Kind: "disjunction_infer_mapping"})
+	}
 	for i := 0; i < n; i++ {
 		kind := Pick(r, nameChangingPasses)
 		ps := GenPassSpec(r, view, kind)
